@@ -243,6 +243,79 @@ func checkC10(w *Worker) {
 				map[string]interface{}{"cmd": cname, "file": name, "content": target, "fail_at": k, "chunk": chunk, "together": together})
 		}
 	})
+	// ---- command level, files of ~10 KB (book and log): faults around every 4096-byte boundary, at both ends and on a stride
+	var bigBook, bigLog strings.Builder
+	for r := 0; r < 200; r++ {
+		bigBook.WriteString(fmt.Sprintf("food/%03d:\n  cal: %d\n  fat: 1\n  element/%d: 2\n", r, r, r%7))
+	}
+	for d := 0; d < 150; d++ {
+		bigLog.WriteString(fmt.Sprintf("20%02d/%02d/%02d:\n  food/%03d: 1\n  # n: %d\n  unknown/%d: 2\n", 21+d/336, 1+(d/28)%12, 1+d%28, d, d, d%5))
+	}
+	bigFiles := []string{bigBook.String(), bigLog.String()}
+	stride := 1021
+	if w.Tier == "thorough" {
+		stride = 61
+	}
+	offsFor := func(n int) []int {
+		seen := map[int]bool{}
+		var out []int
+		add := func(k int) {
+			if k >= 0 && k <= n && !seen[k] {
+				seen[k] = true
+				out = append(out, k)
+			}
+		}
+		for k := 0; k <= 8; k++ {
+			add(k)
+			add(n - k)
+		}
+		for m := 4096; m < n+4096; m += 4096 {
+			for d := -2; d <= 2; d++ {
+				add(m + d)
+			}
+		}
+		for k := 0; k < n; k += stride {
+			add(k)
+		}
+		return out
+	}
+	bigOffsets := [][]int{offsFor(len(bigFiles[0])), offsFor(len(bigFiles[1]))}
+	w.Explore("command-read-faults-large-files", ExploreOpts{ShardDepth: 3}, func(x *Exec) {
+		ci := x.Choose(len(c10Cmds), "input:command")
+		cmd := c10Cmds[ci]
+		which := 0
+		if cmd.Db && cmd.Log {
+			which = x.Choose(2, "fault:which-file")
+		} else if cmd.Log {
+			which = 1
+		}
+		name := []string{"food.yaml", "log.yaml"}[which]
+		target := bigFiles[which]
+		k := bigOffsets[which][x.Choose(len(bigOffsets[which]), "fault:offset")]
+		chunk := []int{0, 1000}[x.Choose(2, "env:chunk")]
+		fl := map[string]string{"food.yaml": bigFiles[0], "log.yaml": bigFiles[1]}
+		args := append([]string{"--no-color"}, cmd.Args...)
+		if cmd.Args[0] == "lint" {
+			args = []string{"--no-color", "lint", name}
+		}
+		fr := &faultReader{data: []byte(target), FailAt: k, Chunk: chunk}
+		r := runCU(cuCase{Args: args, Files: fl, Readers: map[string]*faultReader{name: fr}})
+		x.Obs(fmt.Sprint(r.Failed, firstLine(r.Err)))
+		cname := strings.Join(cmd.Args, " ")
+		x.Case(fmt.Sprint(ci, which, k, chunk), fr.Failed)
+		if r.Panic != "" {
+			x.Violate("C10|"+cname+"|panic", r.String(), nil)
+			return
+		}
+		if !fr.Failed && fr.pos == 0 {
+			x.Case("skip: the command does not read "+name, false)
+			return
+		}
+		if !r.Failed {
+			x.Violate("C10|"+cname+"|success-although-the-file-cannot-be-read-completely|large-file", fmt.Sprintf("`%s`: %s (%d bytes) cannot be read past byte %d (chunk %d; the command read %d bytes) and the command reports success", strings.Join(args, " "), name, len(target), k, chunk, fr.pos),
+				map[string]interface{}{"cmd": cname, "args": args, "file": name, "fail_at": k, "bytes_read": fr.pos, "file_bytes": len(target)})
+		}
+	})
 	// ---- real files: a directory as file, lines at and beyond the line buffer
 	w.Explore("directory-and-long-lines", ExploreOpts{ShardDepth: 2}, func(x *Exec) {
 		ci := x.Choose(len(c10Cmds)+1, "input:command") // last: stats
